@@ -201,7 +201,12 @@ class Index:
         self.typedefs = {}
         self.cnames = {}
     def need_record(self, q):
-        if q not in self.needed_records: self.needed_records.append(q)
+        if q in self.needed_records: return
+        for b in self.records.get(q, {}).get('bases', []) or []:        # a base class is the first member: its struct must come first
+            bt = norm_class(b.get('type', {}).get('desugaredQualType') or b.get('type', {}).get('qualType') or '')
+            for cand in (bt, 'ST::' + bt, '_ST_PRIVATE::' + bt):
+                if cand in self.records: self.need_record(cand); break
+        self.needed_records.append(q)
     def need_enum(self, q):
         if q not in self.needed_enums: self.needed_enums.append(q)
     def walk(self, n, ctx, cls=None):
@@ -1332,10 +1337,14 @@ class Emitter:
 # ---------------------------------------------------------------------------
 def record_struct(ix, ty, q):
     n = ix.records[q]
-    for b in n.get('bases', []) or []:
-        raise Unsupported('record with base class: ' + q)
     lines = ['struct %s {' % cident(q)]
     nf = 0
+    for i, b in enumerate(n.get('bases', []) or []):
+        # a (single, non-virtual) base class becomes the first member; derived-to-base conversions stay unsupported, so only
+        # methods that use the derived class's own members can be extracted (the sinks' append / append_char: C17)
+        bt = b.get('type', {}).get('desugaredQualType') or b.get('type', {}).get('qualType')
+        if i > 0 or b.get('isVirtual'): raise Unsupported('record with several / virtual base classes: ' + q)
+        lines.append('    ' + ty.decl(bt, '__base')[0] + ';'); nf += 1
     for c in n.get('inner', []):
         if c.get('kind') == 'FieldDecl':
             qt = c['type'].get('desugaredQualType', c['type']['qualType'])
